@@ -286,9 +286,9 @@ impl SimpleZipBlobStore {
     fn get_record_append_imp(&self, rec_id: usize, rec_data: &mut Vec<u8>) -> Result<()> {
         if rec_id >= self.num_records {
             return Err(ZiporaError::not_found(format!(
-                "Record {} not found (max {})",
+                "Record {} not found (store has {} records)",
                 rec_id,
-                self.num_records - 1
+                self.num_records
             )));
         }
 
